@@ -64,7 +64,11 @@ Inductive fcase : Type :=
    engine (Finish again, directory back): failed = the first Finish reported an error; got = the
    session the store holds afterwards (decoded, canonical text); want = what it holds after the same
    history without the failure *)
-| FRetry (failed : bool) (got want : bytes).
+| FRetry (failed : bool) (got want : bytes)
+(* one history served request by request on the FILESYSTEM store, whose handle the application also uses
+   for data of its own between creating the persister and the request (got = the record it holds at the
+   end, decoded; every response), and on a memory store used for nothing else (want) *)
+| FSame (got want : bytes).
 
 (* ---- traces ------------------------------------------------------------------------------- *)
 
@@ -165,6 +169,7 @@ Definition case_corr_ok (c : fcase) : bool :=
   match c with
   | FTrace kind p value evs => trace_ok kind p value evs
   | FRetry failed _ _ => failed     (* the injection worked: nothing else is modelled here *)
+  | FSame _ _ => true               (* two runs of the implementation: nothing is modelled here *)
   | FCrash oldlist blobs fs0 p alt tmp newi evs killed obs =>
     let fs := mk_fs blobs fs0 in
     let new := blob blobs newi in
@@ -204,6 +209,8 @@ Definition c12_case_ok (c : fcase) : bool :=
   (* a failed save leaves the old record, and the retried save stores the session the engine holds:
      never an emptied or mixed one *)
   | FRetry _ got want => bytes_eqb got want
+  (* the record a store holds is the session's, whatever else the handle is used for *)
+  | FSame got want => bytes_eqb got want
   | FCrash _ blobs fs0 p _ _ newi _ _ obs =>
     forallb (c12_obs_ok blobs (mk_fs blobs fs0) p (blob blobs newi)) obs
   end.
@@ -227,6 +234,7 @@ Definition selftest_case_ok (c : fcase) : bool :=
     negb (trace_ok kind p value evs)
     && list_eqb fsop_eqb (map fst evs) (put_ops_old p value) && forallb (fun e => snd e) evs
   | FRetry _ _ _ => false
+  | FSame _ _ => false
   end.
 Definition selftest_ok (st : list fcase) : bool :=
   existsb (fun c => match c with FTrace _ _ _ _ => true | _ => false end) st
